@@ -18,9 +18,10 @@ Proof: `Proofs/FuncSim.lean`, one induction on fuel over four mutually dependent
 liveness-indexed relation `Agree`.  The fact that carries it: a name assigned in a body and not in `declared`
 is frame-local **and dead** (`locals_dead`).
 
-The two negative theorems show that the hypotheses are needed, on the shapes where the pinned tree violates
-them (DESIGN §8): a `for` target live across a zero-trip loop (the pinned liveness is not `LiveConsistent`
-there), and a variable whose read the pinned liveness does not see (closure declaring it `nonlocal`).
+The negative theorems show that the hypotheses are needed, on the shapes where the tree violates or violated them
+(DESIGN §8): a `for` target live across a zero-trip loop (the liveness of /repo is not `LiveConsistent` there), and a
+variable whose read the annotation does not see (a closure declaring it `nonlocal`: what /repo computed before
+commit ccf3d44).
 -/
 namespace Malt.Func
 open Malt.Sem
@@ -231,11 +232,13 @@ theorem live_consistent_needed :
       have := execNB_det X0 hm htgt
       simp at this
 
-/-- (b) a read the pinned liveness does not see.  On the pinned tree this is a closure `g` that declares
-`nonlocal x` (`x = x + 1; return x`), called after the conditional: `liveness.py` does not count `x` as read by
-`y = g()`, so `x = 10` is a dead store for it and `x` is left out of the `nonlocal` list of `if_body`.
-The closure call is written inline here (`x = x + 1; y = x`) **with the liveness the pinned tree computes
-for the call statement**:
+/-- (b) a read that the liveness annotation does not see: the model under an annotation that LACKS the closure term.
+Before /repo commit ccf3d44 this was what `liveness.py` computed for a closure `g` that declares `nonlocal x`
+(`x = x + 1; return x`) called after the conditional: `fn_scope.read - fn_scope.bound` dropped `x`, so `x = 10` was a
+dead store for the analysis and `x` was left out of the `nonlocal` list of `if_body` (11 in the original, 1 converted —
+reproduced on the real code at the time; fixed since, the witness is in corpus/C02 and passes).  The statement below
+remains a fact about the model: *given* such an annotation (the closure call is written inline, `x = x + 1; y = x`,
+annotated as not reading `x`), `DeclB`/`DefB` hold, `LiveConsistent` fails, and the results differ.
 ```
 x = 0
 if c: x = 10
@@ -254,7 +257,7 @@ def closureRead : ABlock :=
 
 example : declB closureRead = true ∧ defB ["c"] closureRead = true ∧ retTopB closureRead = true ∧
     liveConsistent closureRead [] = false := by decide
-/-- 11 in the original, 1 in the converted function — the values of the probe. -/
+/-- 11 in the original, 1 in the converted function — the values the probe showed before ccf3d44. -/
 theorem closureRead_source : (execB X0 7 (eraseB closureRead) (st [("c", .int 1)])).map (·.1) = some (.ret (.int 11)) := by decide
 theorem closureRead_target : (execNB X0 9 (funcB closureRead) (TSt.ofSt (st [("c", .int 1)]))).map (·.1) = some (.ret (.int 1)) := by
   decide
